@@ -4,7 +4,8 @@ The same source is compiled for the same target and optimisation level in
 several processes and the sha256 of ``ObjectFile.save`` text and of the linked
 image bytes (``api.link([obj], layout, use_runtime=True)``) are compared:
 
-* PYTHONHASHSEED in {0, 1, 2, 3, 4, random}  (clause "hash randomisation"),
+* PYTHONHASHSEED in {0, 1, 2, random} (quick) / {0, 1, 2, 3, 4, random, random}
+  (thorough)                                  (clause "hash randomisation"),
 * a second process with PYTHONHASHSEED=0      (clause "the process"),
 * a PYTHONHASHSEED=0 process that first compiled an unrelated module and then
   all inputs of the shard one after the other (clause "compiled earlier").
@@ -43,8 +44,9 @@ from vlib.core import rng, h
 PROPERTY = "C30"
 RULE = ("generated C translation units (6..34 live int variables, loops, arrays, calls, globals; per-target C subset), "
         "the same programs rendered as C3, and one assembler snippet per target, compiled for 12 targets x opt levels "
-        "{0,2}; each (input,target,level) is built in 8 processes (hash seeds 0,1,2,3,4,random; seed 0 again; seed 0 "
-        "after an unrelated module and all earlier inputs) and the sha256 of obj.save text and of the linked image are "
+        "{0,2}; each (input,target,level) is built in 6 processes in the quick tier (hash seeds 0,1,2,random; seed 0 "
+        "again; seed 0 after an unrelated module and all earlier inputs), 11 in the thorough tier (+ seeds 3,4, a second "
+        "random, seed 1 again, seed 3 after unrelated) and the sha256 of obj.save text and of the linked image are "
         "compared with the seed-0 build; non-trivial = the build succeeded; distinct by (input,target,level)")
 ASSUMPTIONS = ["sha256 equality of ObjectFile.save text / image bytes is byte identity",
                "a forked child of an interpreter that only imported ppci.api and called get_arch(target) is a process that "
@@ -74,9 +76,10 @@ MEMORY ram LOCATION=0x8000 SIZE=0x4000 { SECTION(data) }
 # (probed feature by feature on the unchanged tree; a generated construct that
 # is not covered only costs a deterministic build failure, never a verdict).
 DISABLED = {
+    "arm": {"not"},  # `~` becomes a call of __inv32, which no runtime library defines
     "or1k": {"not"},
     "mips": {"not", "mod", "larray"},
-    "xtensa": {"xor", "not"},
+    "xtensa": {"xor", "not", "larray", "fewvars"},  # no spill code: loads from the frame are not covered
     "msp430": {"xor", "not", "larray", "bigconst"},
     "arm:thumb": {"not", "le"},
     "m68k": {"xor", "mul", "div", "mod", "shift", "loop", "array", "larray", "global", "call", "const", "bigconst",
@@ -94,6 +97,8 @@ def gen_prog(r, dis, idx):
     operator is replaced after it was drawn), so the per-target renderings of
     program idx have the same shape."""
     nvars = (6, 14, 22, 34, 10, 18, 26, 30)[idx % 8]
+    if "fewvars" in dis:
+        nvars = 5 + idx % 4
     if "tiny" in dis:
         # m68k: register allocation does not terminate (memory grows without bound) for any function with two
         # operations at -O0, e.g. `return (a - b) | a;`: only single-operation functions are generated
@@ -314,7 +319,7 @@ helper:
  pop rbx
  ret
 section data
- dq 0x1122334455667788
+ dd 0x11223344
 msg:
  db 1
  db 2
@@ -482,6 +487,7 @@ start:
  j start
 done:
  ret
+ align 4
 helper:
  l32i a5, a1, 4
  s32i a5, a1, 8
@@ -507,16 +513,13 @@ helper:
  swi r6, r1, 8
  rtsd r15, 8
  or r0, r0, r0
-section data
- db 0x22
- db 7
 """,
 }
 ASM["riscv:rvc"] = ASM["riscv"]
 
 UNRELATED_C = ("int zz_tab[4];\nint zz(int a, int b)\n{\n  int i;\n  int s;\n  s = 0;\n  i = 0;\n"
                "  while (i < a) {\n    s = s + (b - i);\n    zz_tab[i & 3] = s;\n    i = i + 1;\n  }\n  return s;\n}\n")
-UNRELATED_M68K = "int zz(int a, int b)\n{\n  if (a < b) {\n    return a + b;\n  }\n  return (a - b) | a;\n}\n"
+UNRELATED_M68K = "int zz(int a, int b)\n{\n  return a - b;\n}\nint zy(int a, int b)\n{\n  return a | b;\n}\n"
 
 
 def make_input(seed, target, inp):
@@ -562,7 +565,7 @@ def build(job):
         f = io.StringIO()
         obj.save(f)
         text = f.getvalue()
-    except BaseException as e:
+    except Exception as e:
         return {"obj": "ERR:" + type(e).__name__, "img": "-", "err": str(e)[:300]}
     res["obj"] = sha(text)
     res["size"] = sum(len(s.data) for s in obj.sections)
@@ -582,7 +585,7 @@ def build(job):
             n += len(img.data)
         res["img"] = m.hexdigest()
         res["imgsize"] = n
-    except BaseException as e:
+    except Exception as e:
         res["img"] = "ERR:" + type(e).__name__
         res["imgerr"] = str(e)[:300]
     return res
@@ -595,11 +598,27 @@ for t in sorted(set(j["target"] for j in spec["jobs"])):
         api.get_arch(t)
     except BaseException:
         pass
+class Alarm(BaseException):
+    pass
+
+def on_alarm(*a):
+    raise Alarm()
+
+def guarded(job):
+    signal.signal(signal.SIGALRM, on_alarm)
+    signal.alarm(spec["alarm"])
+    try:
+        return build(job)
+    except Alarm:
+        return {"obj": "DIED", "img": "-", "err": "alarm"}
+    finally:
+        signal.alarm(0)
+
 if spec["mode"] == "chain":
     for job in spec["pre"]:
-        results.setdefault("pre", []).append(build(job)["obj"][:12])
+        results.setdefault("pre", []).append(guarded(job)["obj"][:12])
     for job in spec["jobs"]:
-        results["jobs"][job["id"]] = build(job)
+        results["jobs"][job["id"]] = guarded(job)
 else:
     for job in spec["jobs"]:
         r, w = os.pipe()
@@ -635,11 +654,10 @@ with open(sys.argv[2] + ".tmp", "w") as f:
 os.replace(sys.argv[2] + ".tmp", sys.argv[2])
 '''
 
-VARIANTS_QUICK = [("seed0", "0", "fork"), ("seed1", "1", "fork"), ("seed2", "2", "fork"), ("seed3", "3", "fork"),
-                  ("seed4", "4", "fork"), ("random", "random", "fork"), ("seed0-again", "0", "fork"),
-                  ("after-unrelated", "0", "chain")]
-VARIANTS_THOROUGH = VARIANTS_QUICK + [("random-b", "random", "fork"), ("seed1-again", "1", "fork"),
-                                      ("after-unrelated-seed3", "3", "chain")]
+VARIANTS_QUICK = [("seed0", "0", "fork"), ("seed1", "1", "fork"), ("seed2", "2", "fork"), ("random", "random", "fork"),
+                  ("seed0-again", "0", "fork"), ("after-unrelated", "0", "chain")]
+VARIANTS_THOROUGH = VARIANTS_QUICK + [("seed3", "3", "fork"), ("seed4", "4", "fork"), ("random-b", "random", "fork"),
+                                      ("seed1-again", "1", "fork"), ("after-unrelated-seed3", "3", "chain")]
 CLAUSE = {"seed1": "hashseed", "seed2": "hashseed", "seed3": "hashseed", "seed4": "hashseed", "random": "hashseed",
           "random-b": "hashseed", "seed0-again": "fresh_process_same_seed", "seed1-again": "fresh_process_same_seed",
           "after-unrelated": "after_prior_compiles", "after-unrelated-seed3": "after_prior_compiles"}
@@ -686,12 +704,12 @@ def run_variant(name, hashseed, mode, jobs, tmp, keep, alarm=120, pre=None):
     return res
 
 
-def unrelated_jobs(target, level):
+def unrelated_jobs(target):
     if target == "avr":
         return [{"id": "pre", "kind": "asm", "target": target, "level": 0, "src": ASM[target]}]
     src = UNRELATED_M68K if target == "m68k" else UNRELATED_C
-    return [{"id": "pre", "kind": "c", "target": target, "level": 2 - level, "src": src},
-            {"id": "pre2", "kind": "c", "target": target, "level": level, "src": src}]
+    return [{"id": "pre", "kind": "c", "target": target, "level": 2, "src": src},
+            {"id": "pre2", "kind": "c", "target": target, "level": 0, "src": src}]
 
 
 def first_diff(keep, d1, d2):
@@ -708,9 +726,22 @@ def first_diff(keep, d1, d2):
 
 
 # ---------------------------------------------------------------------------
-# known findings: avoid switches name (target, level, kind) combinations
+# known findings.  All four mechanisms sit in target-independent code that every C / C3 compile runs through
+# (tree splitting of the selection DAG, construction of the interference graph, the move sets of its nodes,
+# node merging while coalescing), for every target and at every optimisation level: on the unchanged tree each
+# of the 10 targets with a working C back-end showed differing object files at -O2 and arm, thumb, mips (and,
+# seed dependent, riscv) at -O0.  Whether a given function is hit depends on addresses, so no (target, level)
+# can be promised to be safe: while one of them is open only the assembler-only inputs are compiled.
 
-AVOID_COMBOS = {}
+RA_KEYS = ("selection-dag-split-in-set-order", "interference-graph-built-in-set-order",
+           "interference-node-moves-in-set-order", "graph-combine-reroutes-edges-in-set-order")
+
+
+def _codegen(target, level, kind):
+    return kind in ("c", "c3")
+
+
+AVOID_COMBOS = {k: _codegen for k in RA_KEYS}
 
 
 def avoided(avoid, target, level, kind):
@@ -726,61 +757,69 @@ def avoided(avoid, target, level, kind):
 
 def inputs_for(tier):
     if tier == "quick":
-        return ["c-%d" % i for i in range(8)] + ["c3-%d" % i for i in range(2)]
+        return ["c-%d" % i for i in range(4)] + ["c3-0"]  # 11 builds per target: 4 C + 1 C3 at two levels, 1 asm
     return ["c-%d" % i for i in range(40)] + ["c3-%d" % i for i in range(8)]
 
 
 def plan(tier, seed, avoid):
     specs = []
     inputs = inputs_for(tier)
-    chunk = 10 if tier == "quick" else 12
+    chunk = 6 if tier == "quick" else 8
     for target in TARGETS:
-        for level in LEVELS:
-            for k in range(0, len(inputs), chunk):
-                part = inputs[k:k + chunk]
-                if level == 0 and k == 0:
-                    part = part + ["asm"]
-                specs.append({"target": target, "level": level, "inputs": part})
+        for k in range(0, len(inputs), chunk):
+            specs.append({"target": target, "levels": LEVELS, "inputs": inputs[k:k + chunk] + (["asm"] if k == 0 else [])})
     return specs
 
 
 def floors(tier):
-    return {"evaluations": 800, "distinct_nontrivial": 60, "observed.clause.hashseed": 400,
-            "observed.clause.fresh_process_same_seed": 80, "observed.clause.after_prior_compiles": 80,
-            "observed.targets_built": 6}
+    from vlib.core import open_keys
+
+    if any(k in RA_KEYS for k in open_keys(PROPERTY)):
+        # only the assembler inputs are swept: 12 targets x 5 comparisons x 2 digests
+        return {"evaluations": 110, "distinct_nontrivial": 12, "observed.clause.hashseed": 66,
+                "observed.clause.fresh_process_same_seed": 22, "observed.clause.after_prior_compiles": 22,
+                "observed.targets_built": 12, "observed.avoided": 1}
+    # full sweep: 12 targets x 11 builds x 5 comparisons x 2 digests = 1320 (avr C/C3 builds fail, still compared)
+    return {"evaluations": 1000, "distinct_nontrivial": 80, "observed.clause.hashseed": 600,
+            "observed.clause.fresh_process_same_seed": 200, "observed.clause.after_prior_compiles": 200,
+            "observed.targets_built": 12, "observed.kinds.c": 80, "observed.kinds.c3": 20, "observed.kinds.asm": 12,
+            "observed.levels.0": 50, "observed.levels.2": 50}
 
 
 def run_shard(spec):
     tmp = os.environ.get("VERIF_TMP") or os.getcwd()
     keep = os.path.join(tmp, "objs")
     os.makedirs(keep, exist_ok=True)
-    target, level = spec["target"], spec["level"]
+    target = spec["target"]
     variants = spec.get("variants") or (VARIANTS_QUICK if spec["tier"] == "quick" else VARIANTS_THOROUGH)
     res = {"evaluations": 0, "nontrivial_hashes": [], "observed": {"clause": {}, "build": {}, "distinct_digests": {},
-                                                                  "kinds": {}, "avoided": {}},
+                                                                  "kinds": {}, "avoided": {}, "levels": {}},
            "discarded": {}, "samples": [], "violations": [], "inconclusive": []}
     obs = res["observed"]
     jobs = []
-    for inp in spec["inputs"]:
-        kind, src = make_input(spec["seed"], target, inp)
-        key = avoided(spec["avoid"], target, level, kind)
-        if key:
-            obs["avoided"][key] = obs["avoided"].get(key, 0) + 1
-            continue
-        jobs.append({"id": inp, "kind": kind, "target": target, "level": level, "src": src})
+    for level in spec["levels"]:
+        for inp in spec["inputs"]:
+            if inp == "asm" and level != spec["levels"][0]:
+                continue
+            kind, src = make_input(spec["seed"], target, inp)
+            key = avoided(spec["avoid"], target, level, kind)
+            if key:
+                obs["avoided"][key] = obs["avoided"].get(key, 0) + 1
+                continue
+            jobs.append({"id": "%s@O%d" % (inp, level), "inp": inp, "kind": kind, "target": target, "level": level,
+                         "src": src})
     if not jobs:
         return res
     out = {}
     for name, hashseed, mode in variants:
-        r = run_variant(name, hashseed, mode, jobs, tmp, keep, pre=unrelated_jobs(target, level) if mode == "chain" else None)
+        r = run_variant(name, hashseed, mode, jobs, tmp, keep, pre=unrelated_jobs(target) if mode == "chain" else None)
         if "error" in r:
-            res["inconclusive"].append("%s O%d: %s" % (target, level, r["error"]))
+            res["inconclusive"].append("%s: %s" % (target, r["error"]))
             return res
         out[name] = r["jobs"]
-    tkey = "%s-O%d" % (target, level)
     built = False
     for job in jobs:
-        jid = job["id"]
+        jid, level = job["id"], job["level"]
         per = {name: out[name].get(jid, {"obj": "MISSING", "img": "-"}) for name, _, _ in variants}
         if any(p["obj"] in ("DIED", "MISSING") for p in per.values()):
             res["discarded"]["compile_timeout_or_died"] = res["discarded"].get("compile_timeout_or_died", 0) + 1
@@ -790,7 +829,10 @@ def run_shard(spec):
         bk = obs["build"].setdefault(target, {})
         lab = "ok" if ok else base["obj"]
         bk[lab] = bk.get(lab, 0) + 1
+        if ok and base["img"].startswith("ERR:"):
+            bk["link-" + base["img"]] = bk.get("link-" + base["img"], 0) + 1
         obs["kinds"][job["kind"]] = obs["kinds"].get(job["kind"], 0) + 1
+        obs["levels"][str(level)] = obs["levels"].get(str(level), 0) + 1
         digs = set()
         bad = []
         for name, _, _ in variants:
@@ -804,15 +846,15 @@ def run_shard(spec):
                 obs["clause"][cl] = obs["clause"].get(cl, 0) + 1
                 if per[name][what] != ref[what]:
                     bad.append((name, BASE.get(name, "seed0"), what))
-        dd = obs["distinct_digests"].setdefault(tkey, {})
+        dd = obs["distinct_digests"].setdefault("%s-O%d" % (target, level), {})
         dd[str(len(digs))] = dd.get(str(len(digs)), 0) + 1
         if ok:
             built = True
             res["nontrivial_hashes"].append(h([job["src"], target, level]))
-            if len(res["samples"]) < 1 and job["kind"] != "asm":
-                res["samples"].append({"target": target, "level": level, "input": jid, "source": job["src"][:1500],
+            if len(res["samples"]) < 1 and (job["kind"] != "asm" or len(jobs) == 1):
+                res["samples"].append({"target": target, "level": level, "input": jid, "source": job["src"][:1200],
                                        "obj_sha256": base["obj"], "image_sha256": base["img"],
-                                       "code_bytes": base.get("size")})
+                                       "code_bytes": base.get("size"), "processes": len(variants)})
         if bad and len(res["violations"]) < 4:
             name, refname, what = bad[0]
             case = {"target": target, "level": level, "input": jid, "kind": job["kind"], "source": job["src"],
@@ -823,14 +865,170 @@ def run_shard(spec):
                 case["first_difference_in_obj_text"] = first_diff(keep, per[refname]["obj"], per[name]["obj"])
             res["violations"].append({
                 "summary": "%s O%d %s: %s differs between %s and %s (%d distinct results in %d processes)" % (
-                    target, level, jid, "object text" if what == "obj" else "linked image", refname, name,
+                    target, level, job["inp"], "object text" if what == "obj" else "linked image", refname, name,
                     len(digs), len(variants)),
                 "case": case,
-                "replay_spec": {"target": target, "level": level, "inputs": [jid], "tier": spec["tier"],
+                "replay_spec": {"target": target, "levels": [level], "inputs": [job["inp"]], "tier": spec["tier"],
                                 "seed": spec["seed"], "avoid": []}})
     if built:
         obs["targets_built"] = {target: 1}
     return res
 
 
-PROBES = {}
+# ---------------------------------------------------------------------------
+# witness probes: one interpreter per hash seed observes all four mechanisms in isolation
+
+PROBE_SRC = """int g1, g2; int arr[16];
+int ext(int a, int b) { return a - b; }
+int f(int a, int b, int c, int d) {
+  int v0=a+b, v1=a-c, v2=b*d, v3=c^d, v4=a&b, v5=b|c, v6=a+d, v7=c-b, v8=d+d, v9=a*3;
+  int i;
+  for (i = 0; i < a; i++) {
+    v0 += v1 * v2; v3 ^= v4 + v5; v6 -= v7 & v8; v9 += v0 ^ v3;
+    arr[i & 15] = v6 + v9;
+    if (v0 > v3) { v1 = ext(v2, v4); g1 += v1; } else { v5 = v5 + v8 - v7; }
+  }
+  g2 = v0+v1+v2+v3+v4+v5+v6+v7+v8+v9;
+  return g1 + arr[3];
+}
+"""
+
+PROBE_CHILD = r"""
+import sys, os, json, io, re, hashlib, logging
+logging.disable(logging.CRITICAL)
+out = {}
+def guard(key, fn):
+    try:
+        out[key] = fn()
+    except BaseException as e:
+        out[key] = "ERR:%s:%s" % (type(e).__name__, str(e)[:200])
+
+def combine():
+    # Graph.combine(n, m) re-routes the edges of m; the order in which they are appended to adj_map[n]
+    from ppci.graph.graph import Graph, Node
+    g = Graph()
+    n = Node(g); m = Node(g)
+    others = [Node(g) for _ in range(60)]
+    for o in others:
+        g.add_edge(m, o)
+    g.combine(n, m)
+    return [others.index(o) for o in g.adj_map[n]]
+
+def make_ig():
+    from ppci.arch.registers import Register
+    from ppci.codegen.interferencegraph import InterferenceGraph
+    class R(Register):
+        pass
+    regs = [R("t%d" % i) for i in range(60)]
+    class FakeIns:
+        clobbers = []
+        def __init__(self, regs):
+            self.used_registers = list(regs); self.defined_registers = []
+            self.live_in = set(regs); self.live_out = set(regs); self.kill = set()
+    class FakeNode:
+        def __init__(self, ins):
+            self.instructions = ins
+    ig = InterferenceGraph()
+    ig.calculate_interference([FakeNode([FakeIns(regs)])])
+    return ig, regs
+
+def ig_order():
+    # one instruction with 60 simultaneously live registers: order of node creation and of the first node's edges
+    ig, regs = make_ig()
+    first = ig.get_node(regs[0])
+    return [[sorted(t.name for t in nd.temps)[0] for nd in ig.nodes],
+            [sorted(t.name for t in nd.temps)[0] for nd in first.adjecent]]
+
+def moves():
+    # iteration order of the moves attached to one interference graph node (freeze_moves / enable_moves iterate it)
+    ig, regs = make_ig()
+    class FakeMove:
+        def __init__(self, i):
+            self.i = i
+    node = ig.get_node(regs[1])
+    for i in range(60):
+        node.moves.add(FakeMove(i))
+    return [mv.i for mv in node.moves]
+
+def select():
+    # instruction sequence after instruction selection (before register allocation) of a real compile, virtual
+    # register names reduced to their number (the names carry phi names, which are a different matter)
+    from ppci import api
+    from ppci.codegen import codegen as cg
+    lines = []
+    orig = cg.CodeGenerator.select_and_schedule
+    def sas(self, irf, frame):
+        orig(self, irf, frame)
+        for i in frame.instructions:
+            lines.append(re.sub(r"vreg(\d+)\w*", r"vreg\1", str(i)))
+    cg.CodeGenerator.select_and_schedule = sas
+    spec = json.load(open(sys.argv[1]))
+    api.cc(io.StringIO(spec["src"]), spec["target"], opt_level=spec["level"])
+    return [hashlib.sha256("\n".join(lines).encode()).hexdigest()[:16], len(lines)]
+
+guard("combine", combine)
+guard("ig", ig_order)
+guard("moves", moves)
+guard("select", select)
+import ppci
+out["ppci"] = os.path.abspath(ppci.__file__)
+json.dump(out, open(sys.argv[2], "w"))
+"""
+
+_probe_cache = {}
+
+
+def probe_observations():
+    """Run the probe child under hash seeds 0, 1, 2, random (once per probe process)."""
+    if _probe_cache:
+        return _probe_cache
+    tmp = os.environ.get("VERIF_TMP") or os.getcwd()
+    repo = os.environ.get("VERIF_REPO", "/repo")
+    script = os.path.join(tmp, "c30probe.py")
+    with open(script, "w") as f:
+        f.write(PROBE_CHILD)
+    specfile = os.path.join(tmp, "c30probe-spec.json")
+    with open(specfile, "w") as f:
+        json.dump({"src": PROBE_SRC, "target": "x86_64", "level": 2}, f)
+    obs = []
+    for k, seed in enumerate(["0", "1", "2", "random"]):
+        outfile = os.path.join(tmp, "c30probe-out-%d.json" % k)
+        env = dict(os.environ)
+        env["PYTHONHASHSEED"] = seed
+        env["PYTHONPATH"] = repo
+        with open(os.path.join(tmp, "c30probe.log"), "ab") as log:
+            subprocess.run([os.environ.get("VERIF_PYTHON", "/venv/bin/python"), script, specfile, outfile], env=env,
+                           cwd=tmp, stdin=subprocess.DEVNULL, stdout=log, stderr=log, timeout=600)
+        with open(outfile) as f:
+            r = json.load(f)
+        if not r["ppci"].startswith(os.path.abspath(repo) + os.sep):
+            raise RuntimeError("probe child imported ppci from %s" % r["ppci"])
+        obs.append(r)
+    _probe_cache["obs"] = obs
+    return _probe_cache
+
+
+def _probe(key, what):
+    def run():
+        obs = probe_observations()["obs"]
+        vals = [json.dumps(o[key]) for o in obs]
+        for v in vals:
+            if v.startswith('"ERR:'):
+                raise RuntimeError("probe %s could not observe: %s" % (key, v))
+        n = len(set(vals))
+        if n == 1:
+            return None
+        return "%s: %d different orders in %d processes (hash seeds 0, 1, 2, random)" % (what, n, len(vals))
+    return run
+
+
+PROBES = {
+    "selection-dag-split-in-set-order": _probe(
+        "select", "instruction sequence after selection of the witness function (x86_64 -O2, registers by number)"),
+    "interference-graph-built-in-set-order": _probe(
+        "ig", "order of interference-graph nodes and edges for one instruction with 60 live registers"),
+    "interference-node-moves-in-set-order": _probe(
+        "moves", "iteration order of 60 moves attached to one interference-graph node"),
+    "graph-combine-reroutes-edges-in-set-order": _probe(
+        "combine", "adjacency order of n after Graph.combine(n, m) with 60 neighbours of m"),
+}
